@@ -24,6 +24,8 @@ type c16wReq struct {
 	line     int
 	off, n   int
 	data     []byte
+	mask     []bool // masked line write: only the bytes with a true entry are written
+	rbOff    int    // read-back offset (a masked write is read back where its mask is false)
 	expect   []byte
 	sent     bool
 	answered int
